@@ -4,6 +4,7 @@ import Pms.Gen.Boo
 import Pms.GenR.Boo
 import Pms.Lemmas.Basic
 import Pms.Lemmas.Boo
+import Pms.Props.C08
 import Mathlib.Data.Complex.Basic
 import Mathlib.Algebra.BigOperators.Field
 import Mathlib.Analysis.SpecialFunctions.Sqrt
@@ -270,5 +271,86 @@ theorem C09_wcap_def (L : ℕ) (wv : ℝ) (q : ℕ → ℂ) (hS : 0 < ∑ k ∈ 
   have h32 : S ^ (3 / 2 : ℝ) = S * Real.sqrt S := by
     rw [show (3 / 2 : ℝ) = 1 + 1 / 2 by norm_num, Real.rpow_add hS, Real.rpow_one, ← Real.sqrt_eq_rpow]
   rw [h32, div_eq_inv_mul]
+
+example : Unsold 0 (fun _ => 1) (fun _ _ _ => ((1 / Real.sqrt (4 * Real.pi) : ℝ) : ℂ)) 0 := by
+  intro j _
+  have hp : (0 : ℝ) < 4 * Real.pi := by positivity
+  simp only [Nat.mul_zero, Nat.zero_add, Finset.sum_range_one, Complex.normSq_ofReal]
+  rw [div_mul_div_comm, Real.mul_self_sqrt hp.le]
+  norm_num
+
+/-! ## correlations -/
+
+/-- `time_correlation` (linear branch, vector condition): lag k holds the mean over the T−k origins of
+Re Σ_i Σ_m q_lm(i, n) conj q_lm(i, n−k) -/
+theorem C09_timecorr_def (T N L : ℕ) (q : ℕ → ℕ → ℕ → ℂ) (k : ℕ) :
+    tcorrRaw cOps T N L q k
+      = (∑ n ∈ (range T).filter (fun n => k ≤ n),
+          (∑ i ∈ range N, ∑ m ∈ range L, q n i m * (starRingEnd ℂ) (q (n - k) i m)).re) / ((T - k : ℕ) : ℝ) := by
+  unfold tcorrRaw
+  rw [originLoop_eq, originLoop_eq]
+  congr 1
+  · apply Finset.sum_congr rfl
+    intro n _
+    unfold frameDot
+    rw [sumRange_eq]
+    simp only [sumRange_eq]
+    rfl
+  · rw [Finset.sum_const, origin_count]
+    simp
+
+/-- `boo_3d.time_corr`: dividing by lag 0, multiplying by the (regenerated) factor 4π/(2l+1) and dividing by lag 0
+again returns the plain normalised autocorrelation — the factor cancels -/
+theorem C09_corr_def (l : ℕ) (raw : ℕ → ℝ) (k : ℕ) (h0 : raw 0 ≠ 0) :
+    timeCorrImpl cOps l raw k = raw k / raw 0
+    ∧ ((4 : ℕ) : ℝ) * cOps.pi / ((2 * l + 1 : ℕ) : ℝ) = Pms.GenR.Boo.tcFactor l := by
+  constructor
+  · unfold timeCorrImpl
+    have hf : ((4 : ℕ) : ℝ) * cOps.pi / ((2 * l + 1 : ℕ) : ℝ) ≠ 0 := by
+      show ((4 : ℕ) : ℝ) * Real.pi / ((2 * l + 1 : ℕ) : ℝ) ≠ 0
+      have := Real.pi_pos
+      positivity
+    simp only []
+    rw [div_self h0, one_mul, mul_div_assoc, div_self hf, mul_one]
+  · unfold Pms.GenR.Boo.tcFactor
+    show ((4 : ℕ) : ℝ) * Real.pi / ((2 * l + 1 : ℕ) : ℝ) = _
+    push_cast; rfl
+
+/-- spatial correlation (documented eq. 8): the ratio of the two returned columns, times 4π/(2l+1), is the
+pair-averaged Re Σ_m q_lm(j) conj q_lm(i) over the pairs i<j whose distance falls in bin b — the ideal-gas
+normalisation of `conditional_gr` cancels -/
+theorem C09_spatial_def (N L : ℕ) (bin : ℕ → ℕ → ℕ) (q : ℕ → ℕ → ℂ) (nr : ℕ → ℝ) (b : ℕ)
+    (hN : N ≠ 0) (hnr : nr b ≠ 0) :
+    gAFrame cOps N L bin q nr b / grFrame N bin nr b
+      = (pairLoop N fun i j => if bin i j = b then (∑ m ∈ range L, q j m * (starRingEnd ℂ) (q i m)).re else 0)
+        / (pairLoop N fun i j => if bin i j = b then (1 : ℝ) else 0) := by
+  unfold gAFrame grFrame pairHist
+  have hN' : ((N : ℕ) : ℝ) ≠ 0 := by exact_mod_cast hN
+  have e : (fun i j => if bin i j = b then sijUp cOps L (q j) (q i) else 0)
+      = fun i j => if bin i j = b then (∑ m ∈ range L, q j m * (starRingEnd ℂ) (q i m)).re else 0 := by
+    funext i j
+    unfold sijUp
+    rw [sumRange_eq]; rfl
+  rw [e]
+  simp only [Nat.cast_ofNat, Nat.cast_one]
+  by_cases hc : (pairLoop N fun i j => if bin i j = b then (1 : ℝ) else 0) = 0
+  · rw [hc]; simp
+  · field_simp
+
+/-- the frame average of `spatial_corr` -/
+theorem C09_frame_mean (T : ℕ) (f : ℕ → ℝ) : frameMean T f = (∑ t ∈ range T, f t) / (T : ℝ) := by
+  unfold frameMean; rw [sumRange_eq]
+
+/-! ## bond angles: Y depends on the unit bond vector only -/
+
+theorem castPoly_eq_map (p : List Rat) : Pms.Sph.castPoly p = p.map (fun q => (q : ℝ)) := by
+  induction p with
+  | nil => rfl
+  | cons a t ih => simp [Pms.Sph.castPoly, ih]
+
+theorem powN_eq_pow (x : ℂ) (n : ℕ) : powN x n = x ^ n := by
+  induction n with
+  | zero => simp [powN]
+  | succ n ih => rw [powN, ih, pow_succ]
 
 end Pms.Boo
